@@ -1016,7 +1016,8 @@ pub fn run(ctx: &Ctx) -> i32 {
             let strat = spec_strategy(pspec, big_ok);
             let seed = derive_seed(ctx.seed, ctx.id, bi, 0);
             let counter = std::cell::Cell::new(0u64);
-            let res = pt_search(seed, per_builtin, &strat, &stats, |g| {
+            let cases = if matches!(name.as_str(), "binary_get" | "binary_set" | "binary_slice") { per_builtin * 5 } else { per_builtin };
+            let res = pt_search(seed, cases, &strat, &stats, |g| {
                 let len0 = first_bin_len(g).unwrap_or(0);
                 let arg = resolve(g, len0);
                 let m = model(name, &arg);
